@@ -77,7 +77,10 @@ def run(ctx):
                         if t.callee.short.endswith("HashSet::is_empty") and prog.bodies[bp].kind == "closure":
                             # the closure returns !is_empty
                             cb = prog.bodies[bp]
-                            has_empty_test = any(st.k == "assign" and st.lhs.local == 0 and st.rv.k == "unop" and st.rv.j["op"] == "Not" for st in cb.stmts())
+                            cfl = flows.of(cb)
+                            rds = [panic.norm(cfl.describe_def(d_, depth=6)) for (_, d_) in cb.assigns_to(0)]
+                            if rds and all(d_[0] == "unop" and d_[1] == "Not" and d_[2][0] == "call" and d_[2][1].endswith("::is_empty") for d_ in rds):
+                                has_empty_test = True
             ctx.require("filter" in cal and has_empty_test, "R-C13-2", "filtered|%d" % i, "returned partition #%d passes filter(|part| !part.is_empty())" % i, "returned partition #%d is not filtered for empty communities" % i, loc_str(ag[0].span))
     mh = prog.one("louvain::map_node_names_to_hashsets")
     ok = any(t.callee and t.callee.short.endswith("HashSet::insert") for c in [mh] + prog.closures_of(mh.path) for t in c.calls())
